@@ -337,6 +337,10 @@ def python_half(ctx):
             if rng.choice(("none", "none", "scalars")) == "scalars":
                 sc_ = {k: val for k, val in (("dir", 90.0), ("site", 3), ("lon", 170.5), ("lat", -40.0)) if k not in da.dims}
                 da = da.assign_coords(**sc_)
+            # storage: a valid spectrum is valid whether it sits in memory or is dask-backed with its spectral dimensions in several
+            # chunks (what split(rechunk=False), a concatenation of bands or open_dataset(chunks=...) leave behind)
+            if rng.choice(("numpy", "numpy", "lazy_split")) == "lazy_split":
+                da = da.chunk({d_: max(1, da.sizes[d_] // 2) for d_ in ("freq", "dir") if d_ in da.dims})
             try:
                 out = classify(call(da, v["op"], v["arg"]))
             except ValueError:
@@ -356,6 +360,7 @@ def python_half(ctx):
         da = representative(v["nf"], v["dirs"], v["spectrum"], rng2)
         rng2.choice(("none", "none", "time1", "time2site1"))       # keep the generator in step with realise()
         rng2.choice(("none", "none", "scalars"))
+        rng2.choice(("numpy", "numpy", "lazy_split"))
         if v["op"] == "hmax" and v["spectrum"] == "zero" and lead == "time2site1" and out == "nan":
             ctx.replayed()      # with a real time axis the wave count of a zero-energy record is 0/0: degenerate, NaN allowed
             continue
